@@ -419,26 +419,28 @@ End Deep.
 Definition filters_of (io : iobj) : list bytes :=
   match io with IStream _ f _ => f | _ => [] end.
 
-(* the side condition of the round trip: not a lazily-kept object-stream member, and metadata
+(* the side condition of the round trip: metadata
    streams only when EncryptMetadata is true (setupEncryption always yields Emd = true) *)
 Definition roundtrip_ok (emd : bool) (io : iobj) : Prop :=
   match io with
-  | ILazy _ => False
   | IStream d _ _ => emd = true \/ type_is nMetadata d = false
-  | IObj _ => True
+  | IObj _ | ILazy _ => True
   end.
+
+(* what the reader holds afterwards: a member that was still undecoded comes back as the decoded object *)
+Definition decoded (io : iobj) : iobj := deref_for_write true io.
 
 Section IObj.
   Variables (strE strD stmE stmD : bytes -> res bytes).
   Hypothesis StrED : forall b c, strE b = Ok c -> dec_str strD c = Ok b.
   Hypothesis StmED : forall b c, stmE b = Ok c -> dec_str stmD c = Ok b.
 
-  Lemma iobj_roundtrip : forall emd to_os io e,
-    roundtrip_ok emd io ->
-    write_iobj strE stmE to_os io = Ok e ->
+  Lemma keyed_roundtrip : forall emd to_os io e,
+    (forall o, io <> ILazy o) -> roundtrip_ok emd io ->
+    write_keyed strE stmE to_os io = Ok e ->
     read_emitted strD stmD emd (filters_of io) e = Ok io.
   Proof.
-    intros emd to_os io e Hok H. destruct io as [o|d filters raw|o]; simpl in *; [| |contradiction].
+    intros emd to_os io e Hnl Hok H. destruct io as [o|d filters raw|o]; simpl in *; [| |exfalso; apply (Hnl o); reflexivity].
     - assert (G : forall e, match encryptDeep strE o with Ok o' => Ok (EmTop o') | Err => Err end = Ok e ->
                   read_emitted strD stmD emd [] e = Ok (IObj o)).
       { intros e0 H0. destruct (encryptDeep strE o) as [o'|] eqn:He; [|discriminate]. inversion H0; subst.
@@ -460,6 +462,18 @@ Section IObj.
         * assert (Hmeta : negb emd && type_is nMetadata d = false).
           { destruct Hok as [He|Hm]; [rewrite He; reflexivity | rewrite Hm; apply andb_false_r]. }
           rewrite Hmeta. simpl in Hdec. rewrite Hdec. reflexivity.
+  Qed.
+
+  Lemma iobj_roundtrip : forall emd to_os io e,
+    roundtrip_ok emd io ->
+    write_iobj true strE stmE to_os io = Ok e ->
+    read_emitted strD stmD emd (filters_of io) e = Ok (decoded io).
+  Proof.
+    intros emd to_os io e Hok H. unfold write_iobj in H. unfold decoded.
+    assert (Hf : filters_of io = filters_of (deref_for_write true io)) by (destruct io; reflexivity).
+    rewrite Hf. apply (keyed_roundtrip emd to_os); [| |exact H].
+    - intros o Heq. destruct io; simpl in Heq; discriminate.
+    - destruct io; simpl in *; auto.
   Qed.
 End IObj.
 
@@ -583,8 +597,8 @@ Lemma object_roundtrip : forall c,
   (forall k b, len16 b -> len16 (cp_aenc c k b)) ->
   forall strE stmE, str_cipher_of c strE -> stm_cipher_of c stmE ->
   forall emd to_os io e, roundtrip_ok emd io ->
-    write_iobj strE stmE to_os io = Ok e ->
-    read_emitted (decryptBytes c) (decryptStream c) emd (filters_of io) e = Ok io.
+    write_iobj true strE stmE to_os io = Ok e ->
+    read_emitted (decryptBytes c) (decryptStream c) emd (filters_of io) e = Ok (decoded io).
 Proof.
   intros c Hinv Hlen strE stmE Hs Hm emd to_os io e Hok H.
   eapply iobj_roundtrip; [| |exact Hok|exact H].
@@ -597,15 +611,26 @@ Definition wit_c : cparams :=
   {| cp_md5 := fun _ => repeatN 7 16; cp_aenc := fun _ b => b; cp_adec := fun _ b => b;
      cp_key := [1; 2; 3; 4; 5]; cp_aes := false; cp_r := 2%Z; cp_obj := 12%Z; cp_gen := 0%Z |}.
 
-Lemma lazy_refuted : exists o o',
-  write_iobj (encryptBytes wit_c []) (encryptStream wit_c []) false (ILazy o) = Ok (EmTop o) /\
-  read_emitted (decryptBytes wit_c) (decryptStream wit_c) true [] (EmTop o) = Ok (IObj o') /\ o' <> o.
+(* a still-undecoded object-stream member: with a key it is decoded, enciphered and comes back as the
+   decoded object; without a key the fast path copies it verbatim *)
+Lemma lazy_roundtrip : forall c,
+  (forall k b, len16 b -> cp_adec c k (cp_aenc c k b) = b) ->
+  (forall k b, len16 b -> len16 (cp_aenc c k b)) ->
+  forall strE stmE, str_cipher_of c strE -> stm_cipher_of c stmE ->
+  forall emd to_os o e,
+    write_iobj true strE stmE to_os (ILazy o) = Ok e ->
+    read_emitted (decryptBytes c) (decryptStream c) emd [] e = Ok (IObj o).
 Proof.
-  exists (OStr [77; 75]). eexists. split; [reflexivity|]. split; [vm_compute; reflexivity|]. discriminate.
+  intros c Hinv Hlen strE stmE Hs Hm emd to_os o e H.
+  apply (object_roundtrip c Hinv Hlen strE stmE Hs Hm emd to_os (ILazy o) e I H).
 Qed.
 
+Lemma lazy_unkeyed_verbatim : forall strE stmE to_os o,
+  write_iobj false strE stmE to_os (ILazy o) = Ok (EmTop o).
+Proof. reflexivity. Qed.
+
 Lemma metadata_emd_false_refuted : exists d raw e raw',
-  write_iobj (encryptBytes wit_c []) (encryptStream wit_c []) false (IStream d [] raw) = Ok e /\
+  write_iobj true (encryptBytes wit_c []) (encryptStream wit_c []) false (IStream d [] raw) = Ok e /\
   type_is nMetadata d = true /\
   read_emitted (decryptBytes wit_c) (decryptStream wit_c) false [] e = Ok (IStream d [] raw') /\ raw' <> raw.
 Proof.
